@@ -105,8 +105,7 @@ theorem parseAttrs_ok : ∀ (f : Nat) (s : Str) (as : List (Str × Str)) (r : St
       | (simp only [Option.some.injEq, Prod.mk.injEq] at h; obtain ⟨rfl, _⟩ := h; simp [okAttrs]; done)
       | (simp only [Option.some.injEq, Prod.mk.injEq] at h
          obtain ⟨rfl, _⟩ := h
-         rename_i hd _ _ hrest
-         exact okAttrs_cons (decodeAttr_ok hd) (ih _ _ _ hrest))
+         exact okAttrs_cons (decodeAttr_ok (by assumption)) (ih _ _ _ (by assumption)))
 
 theorem addText_ok (t : Str) (ks : List Xml) (h : attrsOkKids ks = true) : attrsOkKids (addText t ks) = true := by
   unfold addText
@@ -136,13 +135,11 @@ theorem contentLoop_ok (pe : Str → Option (Xml × Str))
           | exact ih _ _ _ h
           | (simp only [Option.some.injEq, Prod.mk.injEq] at h
              obtain ⟨rfl, _⟩ := h
-             rename_i hk
-             exact addText_ok _ _ (ih _ _ _ hk))
+             exact addText_ok _ _ (ih _ _ _ (by assumption)))
           | (simp only [Option.some.injEq, Prod.mk.injEq] at h
              obtain ⟨rfl, _⟩ := h
-             rename_i he _ _ hk
              simp only [attrsOkKids, Bool.and_eq_true]
-             exact ⟨hpe _ _ _ he, ih _ _ _ hk⟩)
+             exact ⟨hpe _ _ _ (by assumption), ih _ _ _ (by assumption)⟩)
       · -- character data
         simp only at h
         split at h
@@ -171,5 +168,35 @@ theorem parseElemWith_ok (content : Str → Option (List Xml × Str))
        obtain ⟨rfl, _⟩ := h
        simp only [attrsOkTree, attrsOkKids, Bool.and_true]
        exact parseAttrs_ok _ _ _ _ (by assumption))
+
+theorem parseElem_ok : ∀ (f : Nat) (s : Str) (e : Xml) (r : Str), parseElem f s = some (e, r) → attrsOkTree e = true := by
+  intro f
+  induction f with
+  | zero => intro s e r h; simp [parseElem] at h
+  | succ f ih =>
+    intro s e r h
+    unfold parseElem at h
+    exact parseElemWith_ok _ (fun r ks r2 hc => contentLoop_ok (parseElem f) ih (f + 1) r ks r2 hc) _ _ _ _ h
+
+theorem par_ok {s : Str} {t : Xml} (h : par s = some t) : attrsOkTree t = true := by
+  unfold par at h
+  repeat' split at h
+  all_goals first
+    | (cases h; done)
+    | (unfold parRoot at h
+       repeat' split at h
+       all_goals first
+         | (cases h; done)
+         | (simp only [Option.some.injEq] at h; subst h; exact parseElem_ok _ _ _ _ (by assumption)))
+
+/-- **the concrete request parser hands out attribute values made of XML characters** -/
+theorem parEnv_xmlChars (instP : Xml → Except PyExc Unit) : XmlCharsEnv (parEnv instP) := by
+  intro b t h
+  have h' : parseBytes b = .ok t := h
+  unfold parseBytes at h'
+  repeat' split at h'
+  all_goals first
+    | (cases h'; done)
+    | (simp only [Except.ok.injEq] at h'; subst h'; exact par_ok (by assumption))
 
 end Proofs.ListenerHttp
